@@ -20,6 +20,10 @@ search         : an independent NumPy recursion from the same pieces; exact solu
                  smoother installed on level i is the requested method with the requested options (systematic option
                  grid of every linear family, both sides, per-level lists of all length combinations, CSR / AIR / BSR
                  base hierarchies, via the constructors and via change_smoothers); order and number of coarse solves.
+histories      : every grid specification and a third of the random ones is also run after
+                 MultilevelSolver.change_solve_matrix(Anew) (Anew = S A S, same format / block size): the whole pipeline
+                 above (finest-level smoothers consistent with Anew, requested method with its default options set up for
+                 Anew, fixed point, operator vs the NumPy recursion and the Lean model) is applied to the changed hierarchy.
 """
 import hashlib
 import json
@@ -37,7 +41,8 @@ META = {
             'linear elasticity BSR, complex Hermitian) x constructor (ruge_stuben, smoothed_aggregation, rootnode, '
             'pairwise, adaptive_sa, air, hand-built MultilevelSolver with random P, R = P^H or independent R, Galerkin or not) x '
             'max_levels/max_coarse x pre/post smoother (all linear families, options, per-level lists, via constructor or '
-            'change_smoothers) x coarse solver (pinv, lu, cholesky, splu); cycle in V, W, F with cycles_per_level 1..3; '
+            'change_smoothers) x coarse solver (pinv, lu, cholesky, splu) x history (as built | after change_solve_matrix(S A S)); '
+            'cycle in V, W, F with cycles_per_level 1..3; '
             'non-trivial = at least 2 levels for V, at least 3 levels for W and F (otherwise the cycle types coincide); '
             'distinct = distinct (hierarchy specification, cycle, cycles_per_level)',
     'search_only': ['hierarchies too large for the exact rational model (real dimension > 34 quick / 44 thorough) and hierarchies '
